@@ -10,8 +10,22 @@ pub fn splitmix64(x: u64) -> u64 {
 }
 
 /// Byte `off` of pattern stream `stream` (0 = input, 1 = stdout, 2 = stderr, other = free) for `seed`.
+/// Seeds whose low 16 bits carry this mark make the output streams (1, 2) valid UTF-8 text built from
+/// 10-byte groups "<letter>é€𝄞": cut at an arbitrary length it ends, six times out of ten, in the middle of a
+/// multi-byte sequence, and that truncated tail is then the first (and only) decoding error of the stream.
+pub const TEXT_SEED_MARK: u64 = 0x7E47;
+
 #[inline]
 pub fn pat_byte(seed: u64, stream: u64, off: u64) -> u8 {
+    if seed & 0xFFFF == TEXT_SEED_MARK && (stream == 1 || stream == 2) {
+        const GROUP: [u8; 10] = [b'a', 0xC3, 0xA9, 0xE2, 0x82, 0xAC, 0xF0, 0x9D, 0x84, 0x9E];
+        let i = (off % 10) as usize;
+        if i != 0 {
+            return GROUP[i];
+        }
+        let w = splitmix64(seed ^ stream.wrapping_mul(0xD6E8_FEB8_6659_FD93) ^ (off / 10).wrapping_mul(0xA076_1D64_78BD_642F));
+        return b'a' + (w % 26) as u8;
+    }
     let w = splitmix64(seed ^ stream.wrapping_mul(0xD6E8_FEB8_6659_FD93) ^ (off >> 3).wrapping_mul(0xA076_1D64_78BD_642F));
     (w >> ((off & 7) * 8)) as u8
 }
